@@ -30,18 +30,22 @@ for line in open(sys.argv[1]):
     if kind == 'post':
         mm = re.search(r'@r\d+$', lab)
         site = mm.group(0) if mm else '@r0'
+    edge = ''
+    if kind == 'inv-keep':
+        mm = re.search(r'~\d+$', lab)
+        edge = mm.group(0) if mm else '~0'
     lab = re.sub(r'@r\d+$', '', lab)
     lab = re.sub(r'~\d+$', '', lab)
     lab = re.sub(r'^L\d+\.', '', lab)
     if lab not in ALLOWED:
         print('OTHER (not a position clause, left alone):', full)
         continue
-    add.setdefault(fn, set()).add(lab + site)
+    add.setdefault(fn, set()).add(lab + site + edge)
 n = 0
 for f in sorted(add):
     for l in sorted(add[f]):
         if (l, f) not in have:
-            which = 'C06 exact-span' if l.split('@')[0] in ('exact', 'exactl', 'nilkeeps') else 'position'
+            which = 'C06 exact-span' if l.split('@')[0].split('~')[0] in ('exact', 'exactl', 'nilkeeps') else 'position'
             txt += '// @ unproved %s %s -- %s clause not discharged for this function\n' % (l, f, which)
             n += 1
 open(path, 'w').write(txt)
